@@ -225,6 +225,8 @@ class Kind:
                 return self.of(args[0])
             if bn in ("full",) and len(args) > 1:
                 return self.of(args[1])
+            if bn in ("pad", "tile", "repeat", "roll", "take", "broadcast_to", "expand_dims", "moveaxis", "rollaxis") and args:
+                return self.of(args[0])  # (the other operands are widths / counts / shapes / axes, never data)
             # generic: complex iff some array operand is complex
             ks = [self.of(a) for a in args if a.op != "const" or isinstance(a.value, complex)]
             return jk(*ks) if ks else "R"
